@@ -55,6 +55,31 @@ def make_factory(kind):
     raise ValueError(kind)
 
 
+import dataclasses
+import typing
+
+
+@dataclasses.dataclass(frozen=True)
+class ScaledSum:
+    """Callable value objects: ScaledSum(2) == ScaledSum(2.0) and their hashes agree, but they are different
+    user functions (integer vs floating result)."""
+
+    factor: object
+
+    def __call__(self, x, axis):
+        return np.sum(x, axis=axis) * self.factor
+
+
+class ScaledAdd(typing.NamedTuple):
+    factor: object
+
+    def __call__(self, *xs):
+        out = xs[0]
+        for x in xs[1:]:
+            out = out + x
+        return out * self.factor
+
+
 _ADAPTED = {}
 
 
@@ -63,9 +88,16 @@ def adapted(name):
     import einx.numpy
 
     if name not in _ADAPTED:
-        kind, fname = name.split(":")
-        g = getattr(np, fname)
-        f = (lambda x, axis: g(x, axis=axis)) if kind == "reduce" else (lambda *xs: g(*xs))
+        kind, fname = name.split(":", 1)
+        if fname == "option-sensitive":
+            # result depends on the option's value, its sign bit and its Python type
+            f = lambda x, *, opt: np.copysign(x, opt) * (1 + abs(opt)) + (0.5 if type(opt) is float else 0.25 if type(opt) is bool else 0.0)  # noqa: E731
+        elif fname.startswith("value-object:"):
+            factor = eval(fname.split(":", 1)[1], {})  # noqa: S307 - literal from the check's own history description
+            f = ScaledSum(factor) if kind == "reduce" else ScaledAdd(factor)
+        else:
+            g = getattr(np, fname)
+            f = (lambda x, axis: g(x, axis=axis)) if kind == "reduce" else (lambda *xs: g(*xs))
         _ADAPTED[name] = einx.numpy.adapt_numpylike_reduce(f) if kind == "reduce" else einx.numpy.adapt_numpylike_elementwise(f)
     return _ADAPTED[name]
 
@@ -96,7 +128,8 @@ def outcome_of(call):
         del args
         return {"exc": type(e).__name__}
     if isinstance(r, str):
-        return {"code": r}
+        # the header comment shows repr() of constants: memory addresses differ between interpreter processes
+        return {"code": re.sub(r"0x[0-9a-fA-F]+", "0x?", r)}
     if isinstance(r, dict):
         return {"value": json.dumps({k: np.asarray(v).tolist() for k, v in sorted(r.items())})}
     if isinstance(r, bool):
